@@ -263,6 +263,108 @@ def standin_eject_scenarios(tier, seed):
                 bound="exhaustive product of 6 pre x 5 mid x 9 two-qubit (incl. swap-like) x 5 post templates on 3 qubits, x 9 transformer configurations",
                 cases=cases, distinct=len(distinct), failures=len(fails), exhaustive=True, _fails=fails[:3])
 standin_eject_scenarios.prop = "C06"
+
+
+def standin_pauli_sequences(tier, seed):
+    """every sequence of 2-3 (thorough: 4) one-qubit operations from an alphabet of Paulis, their roots and phased rotations (axes at phase exponent 0, 1/4, 1/2, 1), alone
+    and with a CZ inserted at each position, through the phase-tracking / merging transformers: the unitary is unchanged up to global phase"""
+    import itertools
+    import cirq
+
+    a, b = cirq.LineQubit.range(2)
+    alpha = [cirq.X(a), cirq.Y(a), cirq.Z(a), cirq.X(a) ** 0.5, cirq.Y(a) ** 0.5, cirq.X(a) ** -0.5, cirq.Y(a) ** 0.25, cirq.Z(a) ** 0.5, cirq.H(a),
+             cirq.PhasedXPowGate(phase_exponent=1, exponent=0.3)(a), cirq.PhasedXPowGate(phase_exponent=0.25, exponent=0.5)(a), cirq.PhasedXPowGate(phase_exponent=0.5)(a),
+             cirq.PhasedXPowGate(phase_exponent=-0.5, exponent=0.7)(a), cirq.rx(0.7)(a), cirq.ry(np.pi)(a)]
+    tfs = [t for t in _transformers() if t[1] is not None and any(k in t[0] for k in ("eject", "merge_single", "phxz", "drop_negligible", "merge_k_qubit_unitaries(k=2)"))]
+    ctx = cirq.TransformerContext()
+    cases, fails = 0, []
+    L = 3 if tier == "quick" else 4
+    rng = random.Random(seed + 37)
+    for n in range(2, L + 1):
+        seqs = list(itertools.product(alpha, repeat=n))
+        if n == 4:
+            seqs = rng.sample(seqs, 6000)
+        if n == 3 and tier == "quick":
+            seqs = rng.sample(seqs, 700)
+        for seq in seqs:
+            variants = [list(seq)]
+            if n <= 3:
+                variants += [list(seq[:k]) + [cirq.CZ(a, b)] + list(seq[k:]) for k in range(1, n)]
+            for ops_ in variants:
+                circ = cirq.Circuit(ops_)
+                want = circ.unitary(qubit_order=[a, b], qubits_that_should_be_present=[a, b])
+                for name, tf in tfs:
+                    try:
+                        out = tf(circ, ctx)
+                    except Exception:
+                        continue
+                    cases += 1
+                    got = out.unitary(qubit_order=[a, b], qubits_that_should_be_present=[a, b])
+                    if not cirq.allclose_up_to_global_phase(got, want, atol=1e-6):
+                        fails.append(dict(args=dict(transformer=name, circuit=repr(circ)), failed="meaning-changed", clause=f"{name}: unitary changed (beyond global phase)"))
+            if len({f["args"]["transformer"] for f in fails}) >= 3:
+                break
+    seen, uniq = set(), []
+    for f in fails:
+        if f["args"]["transformer"] not in seen:
+            seen.add(f["args"]["transformer"])
+            uniq.append(f)
+    return dict(function=F + "/*[phase-tracking transformers, one-qubit sequences]", case="pauli-sequences",
+                bound=f"every sequence of 2..{L} operations from a 15-operation one-qubit alphabet (length 4 sampled), with a CZ at each inner position, x {len(tfs)} transformer configurations",
+                cases=cases, distinct=cases, failures=len(fails), exhaustive=False, _fails=uniq[:3])
+standin_pauli_sequences.prop = "C06"
+STANDINS.append(standin_pauli_sequences)
+
+
+def standin_qudit_circuits(tier, seed):
+    """circuits on qutrits (shift / clock powers, a matrix gate, a controlled qubit gate with a qutrit control) through every transformer: a
+    transformer may refuse them, but what it returns must mean the same (unitary up to global phase / exact record distribution)"""
+    import cirq
+    from contracts import refsim
+
+    rng = random.Random(seed + 43)
+    cases, fails = 0, []
+    t0, t1 = cirq.LineQid(0, dimension=3), cirq.LineQid(1, dimension=3)
+    b = cirq.LineQubit(2)
+    X3, Z3 = cirq.XPowGate(dimension=3), cirq.ZPowGate(dimension=3)
+    F3 = cirq.MatrixGate(np.array([[1, 1, 1], [1, np.exp(2j * np.pi / 3), np.exp(4j * np.pi / 3)], [1, np.exp(4j * np.pi / 3), np.exp(2j * np.pi / 3)]]) / np.sqrt(3), qid_shape=(3,))
+    pool = [X3(t0), X3(t0) ** 2, Z3(t0), Z3(t0) ** 2, X3(t1), Z3(t1) ** 0.5, F3(t0), F3(t1), cirq.X(b), cirq.Z(b) ** 0.5, cirq.H(b), cirq.X(b).controlled_by(t0, control_values=[2]), cirq.Z(b).controlled_by(t1, control_values=[1])]
+    ctx = cirq.TransformerContext()
+    for it in range(25 if tier == "quick" else 300):
+        ops_ = [rng.choice(pool) for _ in range(rng.randrange(2, 6))]
+        measured = rng.random() < 0.5
+        circ = cirq.Circuit(ops_ + ([cirq.measure(t0, key="m"), cirq.measure(b, key="k")] if measured else []))
+        qs = [t0, t1, b]
+        for name, tf in _transformers():
+            if tf is None:
+                continue
+            try:
+                out = tf(circ, ctx)
+            except Exception:
+                continue
+            cases += 1
+            try:
+                if measured:
+                    ok = refsim.dist_close(refsim.ref_distribution(out, qs), refsim.ref_distribution(circ, qs), atol=1e-6)
+                else:
+                    flat = cirq.Circuit(cirq.decompose(out, keep=lambda op: not isinstance(op.untagged, cirq.CircuitOperation)))
+                    ok = cirq.allclose_up_to_global_phase(refsim.ref_unitary(flat, qs), refsim.ref_unitary(circ, qs), atol=1e-6)
+            except Exception:
+                continue
+            if not ok:
+                fails.append(dict(args=dict(transformer=name, circuit=repr(circ)), failed="meaning-changed", clause=f"{name} changed the meaning of a circuit on qutrits"))
+        if len({f["args"]["transformer"] for f in fails}) >= 3:
+            break
+    seen, uniq = set(), []
+    for f in fails:
+        if f["args"]["transformer"] not in seen:
+            seen.add(f["args"]["transformer"])
+            uniq.append(f)
+    return dict(function=F + "/*[shipped transformers on qudit circuits]", case="qudit-circuits",
+                bound="seeded circuits of 2-5 operations on two qutrits and a qubit (shift / clock powers, Fourier matrix gate, qutrit-controlled qubit gates), with and without measurements, x all transformer configurations",
+                cases=cases, distinct=cases, failures=len(fails), exhaustive=False, _fails=uniq[:3])
+standin_qudit_circuits.prop = "C06"
+STANDINS.append(standin_qudit_circuits)
 STANDINS.append(standin_eject_scenarios)
 
 
